@@ -7,8 +7,8 @@ CLAIMED = True
 MODEL_GROUP = "sched"
 THEOREM_FILE = "Props/C19.v"
 LEVEL_TEXT = ("Coq theorems over a Gallina model of the daemon's scheduling core (timer heap, retransmission list, "
-              "listener maps, deadline handling, command draining, interface-check re-arming): for every history "
-              "of API calls and iteration times in which a resolver deadline is never noticed late, the queries on the "
+              "listener maps, deadline handling, command draining, interface-check re-arming): for every well-formed "
+              "history of API calls and iteration times (early, on time or late), the queries on the "
               "wire are exactly one per start call plus the scheduled ones at gaps 1, 2, 4 ... 3600 s (chk_C19); for "
               "every k the k-th query of a search leaves at t + sum of min(2^i,3600) s on the timer-exact silent "
               "schedule (induction, no horizon); a repeated browse/resolve leaves exactly one chain in every reachable "
@@ -47,9 +47,7 @@ PARTIAL = ("slice: histories without incoming datagrams, registrations, verify r
            "empty, so the refresh / follow-up / new-interface / verify clauses of the text are not exercised and "
            "`no_other_queries` is proved only for this slice: every packet is a start or scheduled query); listener "
            "channels are kept open and drained by the caller (a caller that never reads its bounded(10) channel "
-           "blocks the daemon thread in listener.send - outside the property). The full statement over ALL "
-           "histories is refuted (C19_full_statement_refuted, known finding C19-timeout-late-rerun): proved for "
-           "hazard-free histories, which include all histories in which the daemon is never woken later than it asked. "
+           "blocks the daemon thread in listener.send - outside the property). "
            "Non-ASCII case mapping of host names is outside the model.")
 HARNESS_ARGS = ["sim"]
 PER_SHARD = 8
@@ -61,10 +59,6 @@ nontrivial = schedlib.nontrivial
 
 def generate(rng, tier):
     return schedlib.generate_histories(rng, tier, ID)
-
-
-def known_class(line, impl_result, monitor_result):
-    return ID + "-timeout-late-rerun" if monitor_result.startswith("FAIL[late-timeout]") else None
 
 
 def shrink(line, still_bad):
